@@ -6,6 +6,7 @@ import (
 	"fmt"
 	"os"
 	"regexp"
+	"sort"
 	"strconv"
 	"strings"
 	"testing"
@@ -547,7 +548,14 @@ func judge(bk *backend, w *mWorld, before, after obs, o op, err error, col *evid
 		} else {
 			sig += "unexplained"
 		}
-		return verdict{sig, fmt.Sprintf("Apply returned nil and published %s, but LoadCurrentState(policy) then fails: %v; VerifyRefFull(main) after one authorised push: %v", after.P, loadErr, verifyErr)}
+		vr := "also rejects"
+		if verifyErr == nil {
+			vr = "ACCEPTS"
+		}
+		if next.targetsEnv == nil {
+			vr = "not run (no rule file)"
+		}
+		return verdict{sig, fmt.Sprintf("Apply returned nil and published %s, but LoadCurrentState(policy) then fails: %v; VerifyRefFull(main) after one authorised push %s", after.P[:10], loadErr, vr)}
 	case cause != "":
 		return verdict{"C12:apply-published-state-failing-oracle-accepted-by-LoadState:" + cause, fmt.Sprintf("published %s: oracle says %s, LoadCurrentState accepts", after.P, cause)}
 	case verifyErr != nil:
@@ -719,10 +727,9 @@ func replayM(r replay, col *evid.Collector) {
 	}
 }
 
-var (
-	theT      *testing.T
-	confirmed = map[string]bool{}
-)
+// witnesses: first (shortest) path per signature seen by the cross-check
+// shard's search; they are re-run on a real git repository.
+var witnesses = map[string]replay{}
 
 // confirmOnGit runs a lane-M operation path on a real git repository (same
 // fixed clock and identity, hence the same object ids) and returns the
@@ -804,31 +811,18 @@ func searchM(start string, depth int, thorough bool, exact bool, item *int, col 
 				path := append(append([]string(nil), n.path...), o.Name)
 				if vd.sig != "" {
 					if !quiet {
-						what := vd.what
-						if !confirmed[vd.sig] && len(confirmed) < 2 && theT != nil {
-							// re-run the first case of a signature on a real git repository
-							confirmed[vd.sig] = true
-							gsig, err := confirmOnGit(theT, start, path)
-							switch {
-							case err != nil:
-								col.Fail("lane M finding could not be re-run on real git: " + err.Error())
-								return reached
-							case gsig != vd.sig:
-								col.Fail(fmt.Sprintf("lane M finding %s (start %s, ops %v) is not reproduced on real git (got %q): memstore and git disagree", vd.sig, start, path, gsig))
-								return reached
-							}
-							col.Inc("violations_confirmed_on_real_git")
-							col.Add("traces_validated_against_impl", int64(len(path)))
-							what += " [same operations on a real git repository give the same verdict]"
+						col.Violation(vd.sig, "after "+strings.Join(path, " > ")+": "+vd.what, replay{Lane: "M", Start: start, Ops: path})
+					} else if !exact {
+						if _, ok := witnesses[vd.sig]; !ok {
+							witnesses[vd.sig] = replay{Lane: "M", Start: start, Ops: path}
 						}
-						col.Violation(vd.sig, what, replay{Lane: "M", Start: start, Ops: path})
 					}
 					continue
 				}
 				if !quiet && o.Kind == "apply" && opErr == nil {
 					// successful Apply: lane F
 					if fv, k := faultSeam(n.ms, w, n.o, col); fv.sig != "" {
-						col.Violation(fv.sig, fv.what, replay{Lane: "M", Start: start, Ops: path, Fault: k})
+						col.Violation(fv.sig, "after "+strings.Join(path, " > ")+": "+fv.what, replay{Lane: "M", Start: start, Ops: path, Fault: k})
 					}
 				}
 				nn := mNode{ms: ms, o: after, path: path}
@@ -864,7 +858,6 @@ func TestC12(t *testing.T) {
 			t.Fatal(err)
 		}
 	}()
-	theT = t
 	thorough := evid.Thorough()
 	depthM, depthG := 4, 3
 	if thorough {
@@ -927,7 +920,7 @@ func TestC12(t *testing.T) {
 		if cd > depthM {
 			cd = depthM
 		}
-		for _, start := range []string{"applied1"} {
+		for _, start := range []string{"applied1", "applied2"} {
 			a := searchM(start, cd, thorough, false, nil, col, true)
 			b := searchM(start, cd, thorough, true, nil, col, true)
 			if col.Expired() {
@@ -955,6 +948,31 @@ func TestC12(t *testing.T) {
 				return
 			}
 			col.Add("dedup_crosscheck_states", int64(len(ua)))
+		}
+		// lane M findings are re-run on a real git repository (same clock and
+		// identity, hence same object ids) and must get the same verdict there
+		sigs := make([]string, 0, len(witnesses))
+		for sig := range witnesses {
+			sigs = append(sigs, sig)
+		}
+		sort.Strings(sigs)
+		for _, sig := range sigs {
+			if col.Expired() {
+				break
+			}
+			wr := witnesses[sig]
+			gsig, err := confirmOnGit(t, wr.Start, wr.Ops)
+			switch {
+			case err != nil:
+				col.Fail("lane M finding could not be re-run on real git: " + err.Error())
+				return
+			case gsig != sig:
+				col.Fail(fmt.Sprintf("lane M finding %s (start %s, ops %v) is not reproduced on real git (got %q): memstore and git disagree", sig, wr.Start, wr.Ops, gsig))
+				return
+			}
+			col.Inc("violations_confirmed_on_real_git")
+			col.Add("traces_validated_against_impl", int64(len(wr.Ops)))
+			col.Note("%s: start %s, operations %v re-run on a real git repository (read back through plumbing) give the same verdict", sig, wr.Start, wr.Ops)
 		}
 	}
 
